@@ -58,6 +58,16 @@ CHECKS = {
                 note=TB + "; hw/Npu.v footprint model trusted; intended identities are read from the compiler's own high-level "
                      "command stream by tools/wrap.py (run-time wrapper); views of one buffer with inconsistent strides are not "
                      "distinguished (C06/C10)"),
+    "C04": dict(cat="proof", ref="7/C04", technique="Coq theorems over hand models of get_wait_dependency, RangeSet/MemoryAccessSet, calc_blockdep and get_address_ranges (coords_intersect translated from the source) + proved hazard validator (check_hazards_sound) run on decoded streams of random API op lists and of real compilations",
+                text="waits_separate / waits_separate_bytes: for EVERY operation sequence, conflict relation and outstanding limits, replaying "
+                     "the emitted waits in the two-queue machine never leaves a conflicting kernel/DMA pair unfinished together; "
+                     "rangeset_intersects_spec, rangeset_or_invariant, conflicts_spec (byte-level meaning, symmetric); blockdep_sound "
+                     "(abstract and concrete geometry), calc_blockdep_result/_zero; footprint_overapprox (tile bounding ranges contain "
+                     "every element, for the repaired get_address_ranges); check_hazards_sound for the validator that simulates the "
+                     "queues on exact footprints of the decoded stream (cross-queue RAW/WAR/WAW; consecutive kernels: BLOCKDEP at "
+                     "block-job granularity). The validator runs on random API op lists (U55 and U65 limits) and on every compiled stream.",
+                note=TB + "; queue machine and block traversal are modelled (DESIGN section 4); hazards between non-adjacent kernels and "
+                     "DMA-DMA ordering rely on the in-order assumption; sampled streams"),
     "C05": dict(cat="proof", ref="7/C05", technique="Coq theorems over hand models of the three allocators (random choices as an arbitrary oracle stream) + extraction correspondence incl. the recorded randint stream + property oracle on the real allocators",
                 text="greedy/linear/hillclimb_no_overlap (co-live ranges get disjoint byte intervals; declared-equivalent tensors share), "
                      "*_aligned, *_total_is_extent (reported total bounds every end and is attained in the allocator's own end-of-buffer "
